@@ -25,6 +25,8 @@ CONSTANTS
   MinMemMerge,       \* MinSegmentsForInMemoryMerge
   KeepN,             \* KeepNLatestDeletionPolicy(n)
   TruncateOnPersist, \* TRUE = repaired Persist (fix: truncate); FALSE demonstrates defect D2
+  WaitForSwap,       \* TRUE = repaired persister (fix: it waits for a persist swap it handed over also while
+                     \* closing); FALSE demonstrates the defect: Close between hand-over and application
   MaxInv, MaxCrash, MaxMerges, MaxFaults, MaxReaderOpens,
   AllowClose
 
@@ -196,7 +198,8 @@ NoSnap == [epoch |-> 0, ents |-> <<>>]
 NoMM == [id |-> 0, old |-> <<>>, docs |-> <<>>, h |-> 0]
 ClientInit == [pc |-> "idle", uid |-> 0, seg |-> 0, obs |-> <<>>, res |-> "none", held |-> -1]
 PsInit(pc) == [pc |-> pc, snap |-> NoSnap, acks |-> {}, cbs |-> {}, parked |-> {}, i |-> 0,
-               loaded |-> <<>>, mm |-> NoMM, todo |-> <<>>, heldM |-> -1, last |-> 0, err |-> FALSE]
+               loaded |-> <<>>, mm |-> NoMM, todo |-> <<>>, heldM |-> -1, last |-> 0, err |-> FALSE,
+               req |-> <<>>]   \* req: the persist introduction the introducer has received but not yet applied
 MgInit == [pc |-> "wait", snap |-> NoSnap, planned |-> 0, woken |-> FALSE, mm |-> NoMM, tasks |-> <<>>]
 RdInit == [st |-> "closed", epoch |-> 0, ents |-> <<>>, n |-> 0]
 LifeInit == [up |-> TRUE, closing |-> FALSE, introExited |-> FALSE, lock |-> TRUE, closed |-> FALSE]
@@ -380,25 +383,32 @@ PLoadSeg ==
   /\ UNCHANGED <<root, nextEpoch, nextSeg, cl, pend, cbs, fsnp, fseg, pol, snaps, epochLen, cnt>>
   /\ UNCHANGED PFrame
 
-\* send on persists + introducePersist; loaded copies that are not swapped in
-\* (their segment left the root meanwhile) are closed by the persister
-PIntroPersist ==
+\* prepareIntroducePersist hands the loaded copies to the introducer (send on the
+\* persists channel): the introducer now holds the request
+PSendPersist ==
   /\ ps.pc = "segs" /\ ps.i > Len(ps.todo) /\ \A s \in DOMAIN ps.loaded : ps.loaded[s] # 0
   /\ IF DOMAIN ps.loaded = {}
-     THEN /\ Up
-          /\ ps' = [ps EXCEPT !.pc = "snap"]
-          /\ UNCHANGED <<root, nextEpoch, epochLen, snaps, inst>>
-     ELSE /\ IntroUp
-          /\ LET ents2 == SwapRoot(root.ents, ps.loaded)
-                 used == {ps.loaded[s] : s \in DOMAIN ps.loaded \cap EntIds(root.ents)}
-                 unused == {ps.loaded[s] : s \in DOMAIN ps.loaded} \ used
-                 si1 == NewSnap(SI0, nextEpoch, HsOf(ents2) \ used, used, 1)
-                 si2 == DecSnap(si1, root.epoch)
-             IN /\ root' = [epoch |-> nextEpoch, ents |-> ents2]
-                /\ snaps' = si2.s /\ inst' = DecInsts(si2.i, unused)
-                /\ epochLen' = Put(epochLen, nextEpoch, Len(applied))
-          /\ nextEpoch' = nextEpoch + 1
-          /\ ps' = [ps EXCEPT !.pc = "snap"]
+     THEN /\ Up /\ ps' = [ps EXCEPT !.pc = "snap"]
+     ELSE /\ IntroUp /\ ps' = [ps EXCEPT !.pc = "swapwait", !.req = ps.loaded]
+  /\ UNCHANGED <<root, nextEpoch, nextSeg, nextH, cl, pend, cbs, fsnp, fseg, pol, snaps, inst, epochLen, cnt>>
+  /\ UNCHANGED PFrame
+
+\* introducePersist: the introducer applies the request it holds.  Loaded copies that
+\* are not swapped in (their segment left the root meanwhile) are closed by the
+\* persister's deferred clean-up when it sees the request applied.
+IApplyPersist ==
+  /\ Up /\ ps.req # <<>>
+  /\ LET ents2 == SwapRoot(root.ents, ps.req)
+         used == {ps.req[s] : s \in DOMAIN ps.req \cap EntIds(root.ents)}
+         unused == {ps.req[s] : s \in DOMAIN ps.req} \ used
+         si1 == NewSnap(SI0, nextEpoch, HsOf(ents2) \ used, used, 1)
+         si2 == DecSnap(si1, root.epoch)
+     IN /\ root' = [epoch |-> nextEpoch, ents |-> ents2]
+        /\ snaps' = si2.s
+        /\ inst' = IF ps.pc = "swapwait" THEN DecInsts(si2.i, unused) ELSE si2.i
+        /\ epochLen' = Put(epochLen, nextEpoch, Len(applied))
+  /\ nextEpoch' = nextEpoch + 1
+  /\ ps' = IF ps.pc = "swapwait" THEN [ps EXCEPT !.pc = "snap", !.req = <<>>] ELSE [ps EXCEPT !.req = <<>>]
   /\ UNCHANGED <<nextSeg, nextH, cl, pend, cbs, fsnp, fseg, pol, cnt>>
   /\ UNCHANGED PFrame
 
@@ -586,6 +596,7 @@ CloseCall ==
 
 IExit ==
   /\ Up /\ life.closing /\ ~life.introExited
+  /\ ps.req = <<>>     \* a request it has received is applied before it looks at closeCh again
   /\ life' = [life EXCEPT !.introExited = TRUE]
   /\ UNCHANGED <<root, nextEpoch, nextSeg, nextUid, nextH, cl, pend, cbs, ps, mg, fsnp, fseg, pol, snaps,
                  inst, rd, applied, epochLen, acked, cbAcked, batchOf, retBefore, errd, cnt>>
@@ -594,14 +605,16 @@ IExit ==
 \* cancelled write (ErrClosed path: release what it holds)
 PExit ==
   /\ Up /\ life.closing /\ ps.pc # "exited"
-  /\ ps.pc \in {"wait", "cleanup", "mmwrite", "mmintro", "segs", "snap"}
-  /\ LET holding == ps.pc \in {"mmwrite", "mmintro", "segs", "snap"}
+  /\ ps.pc \in {"wait", "cleanup", "mmwrite", "mmintro", "segs", "snap"} \/ (ps.pc = "swapwait" /\ ~WaitForSwap)
+  /\ LET holding == ps.pc \in {"mmwrite", "mmintro", "segs", "snap", "swapwait"}
          si1 == IF holding THEN DecSnap(SI0, ps.snap.epoch) ELSE SI0
          si2 == IF holding /\ ps.heldM >= 0 THEN DecSnap(si1, ps.heldM) ELSE si1
-         unsw == IF ps.pc = "segs" THEN {ps.loaded[s] : s \in {x \in DOMAIN ps.loaded : ps.loaded[x] # 0}} ELSE {}
+         \* the deferred clean-up closes every loaded copy still in the hand-over map; at
+         \* "swapwait" (unrepaired code only) these are the copies the introducer is about to swap in
+         unsw == IF ps.pc \in {"segs", "swapwait"} THEN {ps.loaded[s] : s \in {x \in DOMAIN ps.loaded : ps.loaded[x] # 0}} ELSE {}
          mmh == IF ps.pc = "mmintro" THEN {ps.mm.h} ELSE {}
      IN snaps' = si2.s /\ inst' = DecInsts(si2.i, unsw \cup mmh)
-  /\ ps' = [PsInit("exited") EXCEPT !.last = ps.last]
+  /\ ps' = [PsInit("exited") EXCEPT !.last = ps.last, !.req = ps.req]
   /\ UNCHANGED <<root, nextEpoch, nextSeg, nextUid, nextH, cl, pend, cbs, mg, fsnp, fseg, pol,
                  rd, life, applied, epochLen, acked, cbAcked, batchOf, retBefore, errd, cnt>>
 
@@ -700,7 +713,7 @@ Next ==
   \/ \E c \in Clients : Prepare(c) \/ IntroduceBatch(c) \/ Return(c)
   \/ \E r \in Readers : ReaderOpen(r) \/ ReaderClose(r)
   \/ PGrab \/ PMemMergeWrite \/ PMemMergeLoad \/ PMemMergeIntro \/ PPersistSeg \/ PLoadSeg
-  \/ PIntroPersist \/ PPersistSnap \/ PCommit \/ PAck
+  \/ PSendPersist \/ IApplyPersist \/ PPersistSnap \/ PCommit \/ PAck
   \/ PCleanupSnap \/ PCleanupSeg \/ PCleanupDone \/ PFail
   \/ MWake \/ MPlan \/ MLoad \/ MIntro \/ MDone \/ MFail
   \/ CloseCall \/ IExit \/ PExit \/ MExit \/ CloseDone
@@ -710,7 +723,7 @@ Spec == Init /\ [][Next]_vars
 
 \* fairness for the liveness properties: every loop keeps taking its steps
 PersisterStep == PGrab \/ PMemMergeWrite \/ PMemMergeLoad \/ PMemMergeIntro \/ PPersistSeg \/ PLoadSeg
-                 \/ PIntroPersist \/ PPersistSnap \/ PCommit \/ PAck
+                 \/ PSendPersist \/ IApplyPersist \/ PPersistSnap \/ PCommit \/ PAck
                  \/ PCleanupSnap \/ PCleanupSeg \/ PCleanupDone \/ PExit
 MergerStep == MWake \/ MPlan \/ MLoad \/ MIntro \/ MDone \/ MExit
 ClientStep == \E c \in Clients : Prepare(c) \/ IntroduceBatch(c) \/ Return(c)
@@ -755,7 +768,7 @@ C05_RealTime == \A v \in DOMAIN retBefore : IsApplied(v) =>
 C05_ReturnedApplied == Up => \A u \in acked : IsApplied(u)
 
 \* C06: merges and persist swaps never change the visible documents
-C06_Invisible == [][(PMemMergeIntro \/ MIntro \/ PIntroPersist) => Vis(root'.ents) = Vis(root.ents)]_vars
+C06_Invisible == [][(PMemMergeIntro \/ MIntro \/ IApplyPersist) => Vis(root'.ents) = Vis(root.ents)]_vars
 
 \* C11: retention, removal safety, handles, lock
 C11_Retained == \A i \in 1..Len(pol.live) : Loadable(pol.live[i])
@@ -780,7 +793,7 @@ C14_Recovers == [](cnt.faults = MaxFaults /\ Up /\ ~life.closing => <>(~Up \/ li
 TypeOK ==
   /\ root.epoch \in Nat /\ nextEpoch \in Nat /\ nextSeg \in Nat
   /\ \A c \in Clients : cl[c].pc \in {"idle", "start", "prepared", "waitp", "done"}
-  /\ ps.pc \in {"wait", "mmwrite", "mmload", "mmintro", "segs", "snap", "commit", "ack", "cleanup", "exited"}
+  /\ ps.pc \in {"wait", "mmwrite", "mmload", "mmintro", "segs", "swapwait", "snap", "commit", "ack", "cleanup", "exited"}
   /\ mg.pc \in {"wait", "plan", "load", "intro", "done", "exited"}
   /\ Up => root.epoch \in DOMAIN snaps
 
